@@ -639,3 +639,44 @@ func TestSession_PutWithExpiredSession(t *testing.T) {
 	assert.NoError(t, err)
 	assert.NoError(t, closer.Close())
 }
+
+func TestSession_EphemeralRecordWithEmptyKeyIsRemoved(t *testing.T) {
+	shardId := int64(1)
+	kvf, walf, sManager, lc := createSessionManager(t)
+
+	createResp, err := sManager.CreateSession(&proto.CreateSessionRequest{
+		Shard:            shardId,
+		SessionTimeoutMs: 5 * 1000,
+	})
+	assert.NoError(t, err)
+	sessionId := createResp.SessionId
+
+	// The empty key and an ordinary key, both owned by the session
+	resp, err := lc.WriteBlock(context.Background(), &proto.WriteRequest{
+		Shard: &shardId,
+		Puts: []*proto.PutRequest{
+			{Key: "", Value: []byte("empty"), SessionId: &sessionId},
+			{Key: "a/b", Value: []byte("ab"), SessionId: &sessionId},
+		},
+	})
+	assert.NoError(t, err)
+	assert.Equal(t, proto.Status_OK, resp.Puts[0].Status)
+	assert.Equal(t, proto.Status_OK, resp.Puts[1].Status)
+	assert.Equal(t, "empty", getData(t, lc, ""))
+	assert.Equal(t, "ab", getData(t, lc, "a/b"))
+
+	_, err = sManager.CloseSession(&proto.CloseSessionRequest{
+		Shard:     shardId,
+		SessionId: sessionId,
+	})
+	assert.NoError(t, err)
+
+	// Both records die with the session
+	assert.Nil(t, getSessionMetadata(t, lc, sessionId))
+	assert.Equal(t, "", getData(t, lc, "a/b"))
+	assert.Equal(t, "", getData(t, lc, ""))
+
+	assert.NoError(t, lc.Close())
+	assert.NoError(t, kvf.Close())
+	assert.NoError(t, walf.Close())
+}
